@@ -392,6 +392,26 @@ def float_phase_stream(rep, ver, zi, gi, rng, count):
                                "replay": "build the circuit with discopy.quantum.gates, compare "
                                          "circuit2zx(c) (standard interpretation) with c.eval()"})
     rep.count("float-phase-circuits", count)
+    # dagger of ZX scalars whose data is a complex number of ANY numeric type: the conjugate
+    import sympy
+    from fractions import Fraction
+    for z in (numpy.complex64(1j), numpy.complex128(2 - 1j), sympy.I, 1 + 2 * sympy.I, 1j, 0.5 - 0.25j, Fraction(1, 2), -1,
+              numpy.float32(0.5)):
+        rep.count("stream:scalar-dagger")
+        try:
+            sc = ZXM.scalar(z)
+            got = complex(sc.dagger().data)
+            d2 = (ZXM.Z(1, 1, 0.25) @ sc).dagger()
+            inner = [complex(b.data) for b in d2.boxes if isinstance(b, ZXM.Scalar)]
+            ok = abs(got - complex(z).conjugate()) < 1e-6 and len(inner) == 1 and abs(inner[0] - complex(z).conjugate()) < 1e-6
+            why = "the dagger of the ZX scalar %r (%s) has data %r, not the conjugate" % (z, type(z).__name__, sc.dagger().data)
+        except Exception as exc:   # noqa
+            ok, why = False, "dagger of the ZX scalar %r raised %s: %s" % (z, type(exc).__name__, exc)
+        if ok:
+            ver.ok("O_scalar_dagger")
+        else:
+            rep.count("oracle:O_scalar_dagger:FAIL")
+            rep.violation(why, {"oracle": "O_scalar_dagger", "data": repr(z)})
 
 
 def run(tier, seed):
